@@ -2252,7 +2252,12 @@ def _contains(token: TokenT, left: object, right: object) -> bool:
     if isinstance(left, str):
         return str(right) in left
     if isinstance(left, Collection):
-        return right in left
+        try:
+            return right in left
+        except TypeError:
+            # An unhashable value (a list or a mapping) is never a key of a
+            # mapping or a member of a set.
+            return False
 
     raise LiquidTypeError(
         f"'in' and 'contains' are not supported between '{left.__class__.__name__}' "
